@@ -2,7 +2,8 @@
 """Regenerates MANIFEST.json from lean/EchoVerif/Props/index.json (single source of truth)."""
 import json, os
 ROOT = os.path.dirname(os.path.dirname(os.path.abspath(__file__)))
-idx = json.load(open(os.path.join(ROOT, "lean/EchoVerif/Props/index.json")))
+idir = os.path.join(ROOT, "lean/EchoVerif/Props/index")
+idx = {f[:-5]: json.load(open(os.path.join(idir, f))) for f in sorted(os.listdir(idir)) if f.endswith(".json")}
 props = [json.loads(l) for l in open(os.path.join(ROOT, "properties.jsonl"))]
 hooks = json.load(open(os.path.join(ROOT, "tools/hooks.json")))
 checks, na = [], []
